@@ -152,6 +152,33 @@ func runC02(c *Ctx, r *Report) {
 		})
 		key := r.Key("R-C02.4", newLog, "initial-index", "")
 		nset := 0
+		// the map may be built under another local name and handed over by plain copies (a helper's result)
+		nextAliases := map[types.Object]bool{nextObj: true}
+		for changed := nextObj != nil; changed; {
+			changed = false
+			walkNoLit(newLog.Body, func(n ast.Node) bool {
+				as, ok := n.(*ast.AssignStmt)
+				if !ok || len(as.Lhs) != len(as.Rhs) {
+					return true
+				}
+				for i, l := range as.Lhs {
+					lid, ok1 := ast.Unparen(l).(*ast.Ident)
+					rid, ok2 := ast.Unparen(as.Rhs[i]).(*ast.Ident)
+					if !ok1 || !ok2 {
+						continue
+					}
+					lo, ro := p.CanonObj(newLog, lid), p.CanonObj(newLog, rid)
+					if lo == nil || ro == nil {
+						continue
+					}
+					if nextAliases[lo] != nextAliases[ro] {
+						nextAliases[lo], nextAliases[ro] = true, true
+						changed = true
+					}
+				}
+				return true
+			})
+		}
 		if nextObj != nil {
 			walkNoLit(newLog.Body, func(n ast.Node) bool {
 				call, ok := n.(*ast.CallExpr)
@@ -162,7 +189,7 @@ func runC02(c *Ctx, r *Report) {
 				if !ok || se.Sel.Name != "Set" {
 					return true
 				}
-				if id, ok := ast.Unparen(se.X).(*ast.Ident); !ok || p.CanonObj(newLog, id) != nextObj {
+				if id, ok := ast.Unparen(se.X).(*ast.Ident); !ok || !nextAliases[p.CanonObj(newLog, id)] {
 					return true
 				}
 				nset++
